@@ -4,10 +4,10 @@ import time
 from framework.checklib import CorrResult
 from framework import coqrun
 from harness import gen, passcorr
-from translator import t1_operators
+from translator import t1_operators, t15_passes
 
 ID = 'C18'
-TRANSLATORS = [t1_operators.translate]
+TRANSLATORS = [t1_operators.translate, t15_passes.translate]
 PROPERTY_FILE = 'Properties/C18.v'
 THEOREMS = ['C18_apply_is_sequencing', 'C18_reduce_generic', 'C18_sequencing_append', 'C18_linearize_flattens',
             'C18_linearize_app', 'C18_composition_is_its_list', 'C18_list_is_sequencing',
@@ -18,7 +18,7 @@ THEOREMS = ['C18_apply_is_sequencing', 'C18_reduce_generic', 'C18_sequencing_app
             'C18_md_effect', 'C18_sig_eqb_spec', 'C18_md_effect_before_rr', 'C18_example_md',
             'C18_mu_no_double_negation', 'C18_mu_no_buffer_reference', 'C18_mu_needs_arity',
             'C18_example_mu', 'C18_example_mu_iff',
-            'C18_me_effect', 'C18_gates_truth_table_spec', 'C18_example_me']
+            'C18_me_effect', 'C18_gates_truth_table_spec', 'C18_example_me', 'C18_passes_regenerated']
 PARTIAL = {}
 LEVEL_TEXT = ('every clause of the property is a Coq theorem about the executable model of the four passes and of the '
               'Transformer pipeline (Model/Passes.v): RemoveRedundantGates returns exactly the gates reachable from the '
@@ -31,8 +31,16 @@ LEVEL_TEXT = ('every clause of the property is a Coq theorem about the executabl
               'operand or output; apply_transformers (linearisation with implied post passes, reduction of repeated '
               'idempotent passes), nested compositions, lists, the pipe operator and cleanup all equal the sequential '
               'application of the leaf passes. The model is hand-written and tied to /repo on every run by comparing '
-              'the complete output circuit of every pass and of random pipelines on generated circuits')
-LEVEL_NOTE = ('Coq kernel + vm_compute; hand-written model of the passes/pipeline and of traversal/evaluation (shared with '
+              'the complete output circuit of every pass and of random pipelines on generated circuits; the four pass '
+              'algorithms, cleanup, the reduction loop of linearize_reduce_transformers and the class tables (idempotence '
+              'flags, implied post passes) are in addition regenerated from the source on every run (translator T15) '
+              'and proved equal to / consistent with the model (C18_passes_regenerated)')
+LEVEL_NOTE = ('Coq kernel + vm_compute; model of the four passes proved equal to the functions translator T15 regenerates from '
+              'the source (trusted: the translator and its prelude, see C03); pipeline machinery: cleanup, the reduction loop '
+              'of linearize_reduce_transformers, the __idempotent__ flags and the pre / post transformer lists of the '
+              'constructors are regenerated (Generated/PipelineGen.v) and the model is proved consistent with them; '
+              'linearize_transformers / as_distinct / apply_transformers / transform / the pipe operator / the __eq__ '
+              'methods remain hand-modelled (correspondence only); hand-written model of traversal/evaluation (shared with '
               'C01/C03/C20); correspondence harness. Hypotheses: WF c (the C02 invariant) for RR effect/totality, ME and MU; '
               'MD needs none; RR idempotence and all pipeline equations need only that the outputs of the initial circuit '
               'name gates (a clause of WF, re-established by every pass) - without it [RR; RR] differs from RR RR in '
@@ -43,7 +51,8 @@ LEVEL_NOTE = ('Coq kernel + vm_compute; hand-written model of the passes/pipelin
 TECHNIQUE = ('Coq proof: list algebra over an abstract leaf semantics for the pipeline; determinism of the DFS step '
              'relation + transport of a run between circuits agreeing on a closed label set (RR idempotence); loop '
              'invariants over the rebuild folds (canonical-representative invariants for MD/ME, parity maps for MU); '
-             'per-gate semantic preservation for ME; exact output-circuit correspondence with the implementation')
+             'per-gate semantic preservation for ME; exact output-circuit correspondence with the implementation; '
+             'source-to-Gallina regeneration of the pass algorithms (T15) with equality proofs')
 TRUSTED = []
 ASSUMPTIONS = []
 
